@@ -146,6 +146,12 @@ func (f *Fetcher) Fetch(ctx context.Context, txID ids.ID, keys []string) error {
 		f.l.Unlock()
 		return f.err
 	}
+	if _, ok := f.txs[txID]; ok {
+		// The keys of this transaction are already registered (the same transaction
+		// ID was enqueued before), so there is nothing more to fetch or to wait for.
+		f.l.Unlock()
+		return nil
+	}
 	var (
 		tx       = &tx{keys: keys}
 		tasks    = make([]*task, 0, len(keys))
